@@ -1,5 +1,6 @@
 import Gmsm.Model.BER
 import Gmsm.Model.PKCS7
+import Driver.P7Fix
 namespace Driver
 open Gmsm Model.BER
 
@@ -109,7 +110,7 @@ def berDispatch (toks : List String) : Option String :=
   | "p7sign" :: _ => some "ok"
   | "p7v" :: rest => some (p7vOp rest)
   | "p12" :: _ => some "ok"
-  | _ => none
+  | _ => p7fixDispatch toks   -- p7padmem, p12k (Driver/P7Fix.lean)
 
 
 end Driver
